@@ -116,6 +116,7 @@ def run(tier, seed, only_case=None):
     r.assumptions = ["balancing weights are powers of two / NaN (exact)", "only the 'count' column is dumped by the pixel dump"]
     if only_case is None:
         r.model_check("MC_TextIO", "MC_TextIO.cfg")
+        r.expect_refuted("MC_TextIO", "MC_TextIO_pinned.cfg", "LayoutHonouredPinned")    # F7: pandas' column assignment is refuted
         cs = cases(tier, seed)
     else:
         cs = [only_case]
